@@ -8,7 +8,7 @@
    directives."
 
    Model: [render] of Model/Interp.v (the walker AFTER the repair of defect I5,
-   notes/pending/C08-directive-list-local.diff) and the history machine of
+   /repo 25f4246 = notes/applied/C08-directive-list-local.diff) and the history machine of
    Model/History.v, which threads what renders share: the registry with every
    PrintNode's directive list ([dirs_after_print], [map_prints]) and the
    caller's data / injected-data maps by identity (a map written through a
